@@ -1,0 +1,14 @@
+//go:build verif
+
+package service
+
+// VerifShouldIncludeFile exposes shouldIncludeFile (include/exclude decision on one path)
+// to the verification driver.
+func VerifShouldIncludeFile(path string, includePatterns, excludePatterns []string) bool {
+	return (&FileReaderImpl{}).shouldIncludeFile(path, includePatterns, excludePatterns)
+}
+
+// VerifShouldSkipDirectory exposes shouldSkipDirectory to the verification driver.
+func VerifShouldSkipDirectory(name string) bool {
+	return (&FileReaderImpl{}).shouldSkipDirectory(name)
+}
